@@ -33,6 +33,7 @@ func init() {
 			{Name: "H_C09_restart", Tier: "quick", What: "2..4 sessions, each: Open with FRESH templates, check every document made durable so far (vector, token and metadata query), [no-op Flush], add 1..2 documents, [Flush], Close; memtable limit one document / unlimited; 4 template sets (flat+text+metadata, hnsw+text, trained ivf+metadata, flat); segment files never overwritten", Covers: []string{"ran"}},
 			{Name: "H_C09_restart_orders", Tier: "quick", EngineReplay: true, What: "two single-document segments from two sessions, third session: every order of the per-segment load/search goroutines, then searches served from the cached segments", Covers: []string{}},
 			{Name: "H_C09_ids", Tier: "quick", What: "segment ids never reused: directory holding a real segment plus a segment-like file (any of the 4 components, empty or not) with id in {7,8,9,10,63,64,99,100,777,99999,999998,999999,1000000,1000009} (file names grow past six digits): the next flush takes the id above it and overwrites nothing", Covers: []string{"ran"}},
+			{Name: "H_C09_short_reads", Tier: "quick", EngineReplay: true, What: "three documents with every modality (4 template sets), [Flush,] Close, reopen with fresh templates while every gzip Read call delivers at most 1 / 3 / 7 bytes (a legal io.Reader; the real one hands out at most one 32 KiB window per call, which only matters for segments far larger than the bound): every document found by vector, token and metadata query", Covers: []string{"ran"}},
 			{Name: "H_C09_refused", Tier: "quick", What: "one document added, then 0..2 refused Removes (unknown id) or a refused Add (wrong dimension; one-document memtables rotate first), then Close / Flush+Close / Flush and death of the process (directory image at the instant Flush returned): found after reopening with fresh templates", Covers: []string{"ran"}},
 		},
 		ModelDiff:   false,
